@@ -36,9 +36,6 @@ func (m *Swap) Validate() error {
 	if m.Amount.IsZero() {
 		return fmt.Errorf("amount cannot be zero")
 	}
-	if m.Amount.Amount.LT(PrecisionLoss) {
-		return fmt.Errorf("amount cannot be less than %s", PrecisionLoss)
-	}
 	if !m.Amount.IsValid() {
 		return fmt.Errorf("amount must be valid")
 	}
